@@ -9,7 +9,7 @@ asked only for base tables the statement names, under one spelling, and the line
 import itertools
 import engine as E
 import pfam, sqlgen
-from canon_ext_cache import provider, path_class, hx
+from canon_ext_cache import provider, path_class, hx, fnv1a
 
 # name groups of the exhaustive small-scope stream: each group probes one hazard next to plain names
 GROUPS = [
@@ -147,7 +147,7 @@ def expected_results(ctx, names):
     res, _ = ctx.corr(["P create_table_statement DEFAULT " + E.enhex(provider(n)) for n in names], stream="provider-texts")
     out = {}
     for n, (_, a, _) in zip(names, res):
-        out[n] = ("S" + a.split(" ", 2)[2]) if a.startswith("OK ") else ("E:" + a.replace(" ", "_"))
+        out[n] = ("S#" + fnv1a(a.split(" ", 2)[2])) if a.startswith("OK ") else ("E:" + a.replace(" ", "_"))
     return out
 
 
@@ -245,6 +245,115 @@ def judge_lineage(a):
     return None
 
 
+# ---------------------------------------------------------------------------------------------------------------------
+# histories of lineage requests: a name that is a derived-table alias / WITH name in one statement and a base table in another
+# ---------------------------------------------------------------------------------------------------------------------
+
+SHARED_NAMES = ["r", "w", "x", "t1", "d"]          # used as alias / WITH name AND as base table
+BASES = ["ods.refunds", "t2", "s.t", "db1.orders"]
+
+
+def history_pool(r):
+    """(dialect, statement) pool: every name of SHARED_NAMES occurs as a derived alias, as a WITH name and as a base table"""
+    pool = []
+    for n in SHARED_NAMES:
+        for b in BASES[:3]:
+            pool.append("SELECT %s.a FROM (SELECT a FROM %s) %s" % (n, b, n))
+            pool.append("SELECT %s.a, y.b FROM (SELECT a, b FROM %s) %s JOIN %s y ON %s.a = y.a" % (n, b, n, BASES[3], n))
+            pool.append("WITH %s AS (SELECT a FROM %s) SELECT a FROM %s" % (n, b, n))
+            pool.append("INSERT INTO %s SELECT q.a, q.b, q.c FROM (SELECT a, b, c FROM %s) q" % (n, b))
+        pool.append("SELECT a FROM %s" % n)
+        pool.append("SELECT %s.a, %s.b FROM %s" % (n, n, n))
+        pool.append("SELECT * FROM %s" % n)
+        pool.append("SELECT z.a FROM %s z JOIN %s y ON z.a = y.a" % (n, BASES[1]))
+        pool.append("INSERT INTO %s (a, b) SELECT a, b FROM %s" % (BASES[0], n))
+        pool.append("SELECT a FROM s.%s" % n)
+    return [("MYSQL", s_) for s_ in pool]
+
+
+def parse_linh(a):
+    """'OK r=…;c=… r=…;c=…' -> [(lineage, [asked names])]"""
+    out = []
+    for tok in a.split(" ")[1:]:
+        res, calls = tok[2:].rsplit(";c=", 1)
+        out.append((res, unhexlist(calls)))
+    return out
+
+
+def fresh_process_each(requests):
+    """every request in a worker process of its own (16 at a time)"""
+    import concurrent.futures
+    with concurrent.futures.ThreadPoolExecutor(E.JOBS) as ex:
+        return list(ex.map(lambda q_: E.run_impl([q_], jobs=1)[0], requests))
+
+
+def judge_history(mode, stmts, a, ref):
+    """None or (signature, index, detail): every statement of a history must give the lineage it gives alone in a fresh process, and the
+    provider must have been asked (now, or earlier in a shared history) for every table it is asked for when the statement is analysed alone"""
+    if not a.startswith("OK "):
+        return ("lineage:history-harness", 0, a[:120])
+    got = parse_linh(a)
+    asked = set()
+    for i, (st, (res, calls)) in enumerate(zip(stmts, got)):
+        want_res, want_calls = ref[st]
+        if res != want_res:
+            return ("lineage:history", i, "statement %d %r gives %s after %r; alone in a fresh process it gives %s" % (i, st[1], res[:160], [s_[1] for s_ in stmts[:i]], want_res[:160]))
+        asked = (asked | set(calls)) if mode == "shared" else set(calls)
+        missing = [c for c in want_calls if c not in asked]
+        if missing or (mode == "fresh" and calls != want_calls):
+            return ("lineage:history-calls", i, "statement %d %r: provider asked for %r, alone in a fresh process it is asked for %r" % (i, st[1], calls, want_calls))
+    return None
+
+
+def lineage_histories(ctx, r):
+    pool = history_pool(r)
+    n = 160 if ctx.quick else 3000
+    hists = []
+    for f in ctx.findings:
+        w = f.get("witness", {})
+        if "history" in w:
+            hists.append((w["mode"], [tuple(x) for x in w["history"]]))
+    # directed pairs first: a statement that defines a name, then a statement that reads the base table of that name
+    for nme in SHARED_NAMES:
+        definers = [p_ for p_ in pool if (") %s" % nme) in p_[1] or ("WITH %s AS" % nme) in p_[1]]
+        readers = [p_ for p_ in pool if p_[1].endswith("FROM %s" % nme) or ("FROM %s z" % nme) in p_[1]]
+        for mode in ("shared", "fresh"):
+            hists.append((mode, [r.choice(definers), r.choice(readers)]))
+    while len(hists) < n:
+        hists.append((r.choice(["shared", "fresh"]), [r.choice(pool) for _ in range(2 + r.below(3))]))
+    distinct = sorted({st for _, h in hists for st in h})
+    refs = fresh_process_each(["LINH %s shared %s" % (d, E.enhex(t)) for d, t in distinct])
+    ref = {}
+    for st, a in zip(distinct, refs):
+        if not a.startswith("OK "):
+            raise E.Infra("C17 reference lineage: %s on %r" % (a[:100], st))
+        ref[st] = parse_linh(a)[0]
+    answers = fresh_process_each(["LINH %s %s %s" % (h[0][0], mode, " ".join(E.enhex(t) for _, t in h)) for mode, h in hists])
+    for (mode, h), a in zip(hists, answers):
+        ctx.cov["evaluations"] += 1
+        ctx.distinct.add(hash(a))
+        j = judge_history(mode, h, a, ref)
+        ctx.count("lineage-history:" + mode + ":" + ("same-as-alone" if j is None else j[0]))
+        if j is None:
+            continue
+        if j[0].endswith("harness"):
+            raise E.Infra("C17 LINH: " + j[2])
+        # shrink: the failing statement after each single earlier statement, then after each pair
+        i = j[1]
+        small = h[:i + 1]
+        cands = [[p_, h[i]] for p_ in h[:i]]
+        for c, a2 in zip(cands, fresh_process_each(["LINH %s %s %s" % (c[0][0], mode, " ".join(E.enhex(t) for _, t in c)) for c in cands])):
+            j2 = judge_history(mode, c, a2, ref)
+            if j2 and j2[0] == j[0]:
+                small, j, a = c, j2, a2
+                break
+        pfam.report(ctx, j[0], {"kind": "lineage-history", "mode": mode, "history": [list(x) for x in small], "observed": a[:600], "detail": j[2],
+                                "reference": {t: list(ref[(d, t)]) for d, t in small},
+                                "oracle": "c17: analysing a statement after other statements gives the lineage it gives alone in a fresh process, and the provider is asked for every base table it names",
+                                "how_found": "stream lineage histories (each history in a process of its own), shrunk to a pair"})
+    ctx.cov["distribution"]["lineage-history:distinct-statements"] = len(distinct)
+
+
 def run(ctx):
     r = ctx.rng.fork("c17")
     ctx.cov["rule"] = ("A: every operation history `new` + up to %d operations over {new, nodisk, get n, crash-after-truncate n, crash-during-write n} for %d name groups "
@@ -253,7 +362,10 @@ def run(ctx):
                        "patched open/write/close) must agree; oracle = abstract cache (answer = parse of the provider's text, provider asked only when cold, nothing written "
                        "above the directory); a failing history is shrunk and classified by the hazards left in it.  B: lineage of generated SELECT / INSERT…SELECT statements "
                        "over %d table spellings with the provider cold / warm in memory / warm on disk in a new instance / without directory; oracle: same lineage, warm "
-                       "provider never asked, cold provider asked only for named base tables, once, under one spelling.  distinct_nontrivial = distinct implementation answers"
+                       "provider never asked, cold provider asked only for named base tables, once, under one spelling.  C: histories of 2–5 lineage requests, each history in a worker process "
+                       "of its own, over a pool in which every one of 5 names is a derived-table alias, a WITH name and a base table, with one provider+analyzer for the history and "
+                       "with fresh ones per statement; oracle: every statement gives the lineage and asks for the tables it does alone in a fresh process.  "
+                       "distinct_nontrivial = distinct implementation answers"
                        % (3 if ctx.quick else 4, len(GROUPS), len(NAMES), len(CRASHES), len(set(TABLES))))
     ctx.cov["proved"] = list(ctx.cov.get("proved", []))
     ctx.cov["validated_only"] = ["agreement of the cache model with tool.py (sampled histories)", "lineage requests: provider calls ⊆ named base tables (implementation only; "
@@ -314,6 +426,8 @@ def run(ctx):
     for (d, t), a in list(zip(stmts, ans))[:3]:
         ctx.sample({"dialect": d, "sql": t[:160], "impl": a[:200]})
 
+    lineage_histories(ctx, r.fork("histories"))
+
     # known findings: replay every witness on the implementation
     for f in ctx.findings:
         if f.get("status") != "finding":
@@ -333,6 +447,15 @@ def run(ctx):
 
 
 def replay(payload):
+    if payload.get("kind") == "lineage-history":
+        h = [tuple(x) for x in payload["history"]]
+        ref = {}
+        for st in sorted(set(h)):
+            ref[st] = parse_linh(E.run_impl(["LINH %s shared %s" % (st[0], E.enhex(st[1]))], jobs=1)[0])[0]
+        a = E.run_impl(["LINH %s %s %s" % (h[0][0], payload["mode"], " ".join(E.enhex(t) for _, t in h))], jobs=1)[0]
+        j = judge_history(payload["mode"], h, a, ref)
+        print("history (%s):" % payload["mode"], [t for _, t in h]); print("implementation:", a[:600]); print("alone in a fresh process:", ref); print("verdict:", j)
+        return 1 if j else 0
     if payload.get("kind") == "lineage":
         a = E.run_impl(["LIN %s %s" % (payload["dialect"], E.enhex(payload["input"]))])[0]
         j = judge_lineage(a)
@@ -342,7 +465,7 @@ def replay(payload):
     names = sorted({name_of(o) for o in ops if name_of(o) is not None})
     exp = {}
     for n, a in zip(names, E.run_impl(["P create_table_statement DEFAULT " + E.enhex(provider(n)) for n in names])):
-        exp[n] = ("S" + a.split(" ", 2)[2]) if a.startswith("OK ") else ("E:" + a.replace(" ", "_"))
+        exp[n] = ("S#" + fnv1a(a.split(" ", 2)[2])) if a.startswith("OK ") else ("E:" + a.replace(" ", "_"))
     a = E.run_impl([req(ops)])[0]
     j = judge(ops, a, exp)
     print("history:", [o if name_of(o) is None else o.split(":")[0] + " " + repr(name_of(o)) for o in ops]); print("implementation:", a[:600]); print("verdict:", j)
